@@ -625,6 +625,9 @@ func runC10(c *Ctx) error {
 		}
 		c.R.Count(fmt.Sprintf("crowd sequence (%d tokens used between first use and revocation)", n), 1)
 	}
+	if err := c10Concurrent(c, l, "adm"+c09RandToken(rng, 20)); err != nil {
+		return err
+	}
 	if err := c10SpaceProbe(c, l, rng); err != nil {
 		return err
 	}
